@@ -114,6 +114,11 @@ Definition response_ok (T : table) (nf na : bool) (q : req) : bool :=
     end
   end.
 
+(* "is rejected at registration": the property does not say with which error — accepted /
+   rejected is judged here, the error class is compared with the model by [agrees] *)
+Definition accepted (e : reg_result) : bool := match e with RegOk => true | _ => false end.
+Definition same_verdict (a b : reg_result) : bool := Bool.eqb (accepted a) (accepted b).
+
 (* does the accepted table satisfy the property's side condition? *)
 Definition in_scope (c : rcase) : bool := one_var_name_per_position (table_of (cregs c)).
 
@@ -122,7 +127,7 @@ Definition in_scope (c : rcase) : bool := one_var_name_per_position (table_of (c
 Definition r_prop_ok (c : rcase) : bool :=
   let T := table_of (cregs c) in
   if in_scope c then
-    list_eqb reg_result_eqb (reg_results [] (cregs c)) (cregobs c)
+    list_eqb same_verdict (reg_results [] (cregs c)) (cregobs c)
     && forallb (response_ok T (cnf c) (cna c)) (creqs c)
   else true.
 
@@ -253,7 +258,7 @@ Definition start_ok (s : scase) (i : nat) (o : start_obs) : bool :=
   if negb (server_in_scope s i) then true
   else if negb (has_start i (sevents s)) then match o with ObsNever => true | _ => false end
   else match first_error (reg_results [] (user_regs s i)), o with
-       | Some e, ObsFailed e' => reg_result_eqb e e'
+       | Some _, ObsFailed _ => true      (* rejected, whatever the error says *)
        | None, ObsStarted => true
        | _, _ => false
        end.
@@ -266,8 +271,8 @@ Definition sreq_ok (s : scase) (q : sreq) : bool :=
     let regs := user_regs s i in
     match first_error (reg_results [] regs) with
     | Some _ => false          (* the server cannot have answered *)
-    | None => sresponse_ok (table_of regs) (sc_nf c) (sc_na c) (sc_cors c) q && mws_ok c q
-    end.
+    | None => sresponse_ok (table_of regs) (sc_nf c) (sc_na c) (sc_cors c) q
+    end.       (* Server.Use / WithChain tags are not the property's business: compared by [agrees] *)
 
 Definition s_prop_ok (s : scase) : bool :=
   forallb2 (start_ok s) (seq_from 0 (List.length (scfgs s))) (sstarts s)
